@@ -188,6 +188,7 @@ def run(chk):
     chk.add(Ob("API surface: %d exported operations enumerated from SSA, all have a harness" % len(fns), "unsat", 0, [], "API surface"))
     items = [(fn, lambda fn=fn: analyse(base, chk, fn)) for fn in fns]
     items += [(fn + " shared", lambda fn=fn: analyse(base, chk, fn, "shared")) for fn in fns if sweep.shared_applicable(prog, fn)]
+    items += [("kernel " + w, lambda w=w: K.k_mul(base, chk, w)) for w in ("feMulGeneric", "feSquareGeneric")]
     # heavy ones first
     items.sort(key=lambda it: 0 if "VarTime" in it[0] else 1)
     items += [("twice ScalarBaseMult", lambda: twice(base, chk, "ScalarBaseMult"))]
